@@ -41,7 +41,7 @@ def run(an, cfg):
     kw = lsq_inputs(K=cfg["K"], baseline=cfg["baseline"], W=cfg["W"], lb=cfg["lb"], ub="finite", bs=cfg["bs"])
     kw.update(base_kws())
     urel = "rho" if cfg["K"] else "c"
-    kw["l2_eps"] = num("l2_eps", {urel: 1, "w": 1}, sign="POS")
+    kw["l2_eps"] = num("l2_eps", ({urel: 1, "w": 1} if cfg["W"] else {urel: 1}), sign="POS")
     kw["l1_eps"] = num("l1_eps", U_INT, sign="POS")
     kw["norm"] = none()
     kw["Epsilon"] = {"array": arr("Epsilon", S("F", "SRC"), U_EPS, sign="NONNEG"), "het": strv("Epsilon", "heteroscedastic"),
